@@ -1123,6 +1123,12 @@ func (r *runner) gen(g *vh.Rand, v view, now int64, created []string) Op {
 				}
 			}
 		}
+		if s.End < 0 { // instants before 1970 are outside the model's domain (0 = unset, real instants > 0)
+			s.End = 1
+		}
+		if s.Start < 0 {
+			s.Start = 1
+		}
 		op.Sil = s
 	case k < 14:
 		op.Kind = "expire"
